@@ -1729,7 +1729,7 @@ def _format_t(path, root=T):
         if op == '.':
             prepr.append('.' + arg)
         elif op == '[':
-            if type(arg) is tuple:
+            if type(arg) is tuple and len(arg) > 1:
                 index = ", ".join([_format_slice(x) for x in arg])
             else:
                 index = _format_slice(arg)
